@@ -47,6 +47,32 @@ def handleRidgeFit (j : Json) : Except String Json := do
       fields := fields ++ [("impl_residual", numJ res), ("rhs_scale", numJ scale)]
   pure (Json.mkObj fields)
 
+/-- the offline life of a Ridge node: partial fits, assignments of `ridge`, `fit()` and `fit(X, Y)`, run through
+    `ridgeStep`; returns what the node holds at the end -/
+def handleRidgeOps (j : Json) : Except String Json := do
+  let d ← natField j "d"
+  let o ← natField j "o"
+  let bias ← boolField j "bias"
+  let lam0 : R ← numField j "ridge0"
+  let p := d + (if bias then 1 else 0)
+  let mut node : RidgeNode R p o := { ridge := lam0, buf := none, W := none }
+  for oj in (← arr (← field j "ops")).toList do
+    let k ← strField oj "op"
+    if k == "partial" || k == "fit_data" then
+      let warmup ← natField oj "warmup"
+      let seqs ← (← arr (← field oj "seqs")).toList.mapM (parseSeq R d o bias)
+      for s in seqs do
+        if s.length ≤ warmup then throw "Warmup: a sequence is not longer than the warm-up"
+      node := ridgeStep node (if k == "partial" then .partialFit warmup seqs else .fitData warmup seqs)
+    else if k == "ridge" then
+      let lam : R ← numField oj "lam"
+      node := ridgeStep node (.setRidge lam)
+    else if k == "fit" then
+      node := ridgeStep node .fit
+    else throw s!"unknown ridge op {k}"
+  pure (Json.mkObj [("ridge", numJ node.ridge), ("has_buffers", Json.bool node.buf.isSome),
+    ("W", match node.W with | none => Json.null | some W => matJ W)])
+
 /-- `readout_forward` on given weights -/
 def handleReadoutForward (j : Json) : Except String Json := do
   let d ← natField j "d"
